@@ -79,3 +79,17 @@ Definition every_expr (ranges : list (items -> items)) (cond : items -> bool) : 
 Definition simple_map (l : items) (f : Z -> items) : items := flat_map f l.
 (* 1 to n *)
 Definition range (a b : Z) : items := map (fun k => a + Z.of_nat k) (seq 0 (Z.to_nat (b - a + 1))).
+
+(* ---- fn:string-join on strings as code point lists.  Spec (F&O): the items in order, the separator between adjacent items.
+   Code: separator.join(items) - Python's str.join, modelled as the left fold that appends separator and item. ---- *)
+Definition str := list Z.
+Fixpoint string_join (l : list str) (sep : str) : str :=
+  match l with
+  | [] => []
+  | s :: r => match r with [] => s | _ => s ++ sep ++ string_join r sep end
+  end.
+Definition py_join (sep : str) (l : list str) : str :=
+  match l with [] => [] | s :: r => fold_left (fun acc t => acc ++ sep ++ t) r s end.
+(* fn:empty / fn:exists: a first item is fetched from the operand *)
+Definition empty (l : items) : bool := match l with [] => true | _ => false end.
+Definition exists_ (l : items) : bool := match l with [] => false | _ => true end.
